@@ -44,6 +44,13 @@ class LoggedGen(TypedGen):
             return self.t(e)
         return e
 
+    def gen_map(self, t, d):
+        e = super().gen_map(t, d)
+        if e[0] == 'map':
+            # keys are operands too: log them
+            e = ('map', [(self.t(k) if self.rng.random() < 0.8 else k, v) for k, v in e[1]])
+        return e
+
     def gen_string(self, t, d):
         rng = self.rng
         if rng.random() < 0.45:
@@ -140,6 +147,18 @@ def chain_programs():
         for i in range(depth):
             e = ('macro', 'map', e, 'x', [('call', 't', [('id', 'x'), ('bin', '+', ('id', 'x'), ('lit', I(1)))])])
         yield e, 'macro-chain:map'
+        # literals: keys, values and elements in source order
+        n = [0]
+
+        def tl(v):
+            n[0] += 1
+            return ('call', 't', [('lit', I(600 + n[0])), v])
+        entries = [(tl(('lit', I(i))), tl(('lit', S("v%d" % i)))) for i in range(depth)]
+        yield ('map', entries), 'literal:map'
+        yield ('map', [(tl(('lit', I(i))), tl(('bin', '/', ('lit', I(1)), ('lit', I(0 if i == 0 else 1))))) for i in range(depth)]), 'literal:map-failing-value'
+        yield ('list', [tl(('lit', I(i))) for i in range(depth)]), 'literal:list'
+        yield ('idx', tl(('list', [tl(('lit', I(i))) for i in range(depth)])), tl(('lit', I(0)))), 'index'
+        yield ('idx', tl(('map', entries)), tl(('lit', I(0)))), 'index:map'
         # nested macros: work = product of the range sizes
         e = ('call', 't', [('lit', I(9)), ('id', 'x0')])
         for i in range(min(depth, 4)):
